@@ -5,7 +5,8 @@
 (* the observed projection must equal its result and the P-layer value PRead(fs).                                   *)
 (* JSON: {"traces": [{"main": [..path..], "files": [{"path": [..], "lines": [{"k","a","n","p"}..]}..],              *)
 (*        "obs": {"abort", "defs": [[name, n]..], "defaults": n, "atypes": [[name, n]..], "nbp": [[key, n]..],      *)
-(*                "types": [[key, [n..]]..], "blocks": [[name, n]..], "molecules": [name..], "idx": [[name,[i..]]..]}}]} *)
+(*                "types": [[key, [n..]]..], "blocks": [[name, n]..], "edged": [[name, bool]..], "molecules": [name..], "medged": [bool..],               *)
+(*                "idx": [[name,[i..]]..]}}]}                                                                        *)
 EXTENDS TopRead, Json, IOUtils
 
 Doc == JsonDeserialize(IOEnv.TRACE_FILE)
@@ -37,7 +38,9 @@ FirstDiff(o, r) ==
     [] ~MapMatches(o.nbp, r.nbp) -> "nonbond_params"
     [] ~TypesMatch(o.types, r.types) -> "type tables"
     [] ~MapMatches(o.blocks, r.blocks) -> "molecule types"
+    [] ~MapMatches(o.edged, r.edged) -> "edges of molecule types"
     [] o.molecules # r.molecules -> "molecule list"
+    [] o.medged # r.medged -> "edges of instances"
     [] ~MapMatches(o.idx, r.idx) -> "mol_idx_by_name"
     [] OTHER -> ""
 
